@@ -27,7 +27,7 @@ ASSUMPTIONS = c03.ASSUMPTIONS + [
     "exactness of member-wise prefix containment for cube-vs-cube is argued in DESIGN 4/C11",
 ]
 REQUIRED = ["answered_true", "answered_false", "nc_involved_true", "acl_with_shadow",
-            "acl_without_shadow", "acl_attribution_not_adjacent", "standard_pair", "switched_pair", "acl_standard",
+            "acl_without_shadow", "acl_attribution_not_adjacent", "standard_pair", "switched_pair", "mutated_pair", "acl_standard",
             "acl_switched"]
 LONG_SUB = [1, 2, 4, 5, 3, 9]  # two independent (cover, covered) pairs + two more: longer lists
 SKIP_ACL = [None, ["nc_wildcard"], ["addrgroup", "nc_wildcard"]]
